@@ -121,6 +121,13 @@
 /* The default state of the file DD caching */
 static int default_cache = TRUE;
 
+#ifdef HDF4_VERIF_SIM
+/* verification hooks (off by default), set by the simulator before it drives the library */
+int16 h4verif_ndds_override      = 0;
+int32 h4verif_block_len_override = 0;
+int32 h4verif_block_num_override = 0;
+#endif
+
 /* Whether we've installed the library termination function yet for this interface */
 static int library_terminate = FALSE;
 
@@ -259,6 +266,13 @@ Hopen(const char *path, int acc_mode, int16 ndds)
     HEclear();
     if (!path || ((acc_mode & DFACC_ALL) != acc_mode))
         HGOTO_ERROR(DFE_ARGS, FAIL);
+
+#ifdef HDF4_VERIF_SIM
+    /* verification hook (off by default): descriptor-block size for files created through layers that
+       hard-wire it (SDstart passes 200) */
+    if (h4verif_ndds_override > 0)
+        ndds = h4verif_ndds_override;
+#endif
 
     /* Perform global, one-time initialization */
     if (library_terminate == FALSE)
@@ -883,6 +897,13 @@ Hstartaccess(int32 file_id, uint16 tag, uint16 ref, uint32 flags)
     /* VSsetblocksize and VSsetnumblocks - BMR (bug #267 - June 2001) */
     access_rec->block_size = HDF_APPENDABLE_BLOCK_LEN;
     access_rec->num_blocks = HDF_APPENDABLE_BLOCK_NUM;
+#ifdef HDF4_VERIF_SIM
+    /* verification hook (off by default): small linked blocks for silently promoted elements */
+    if (h4verif_block_len_override > 0)
+        access_rec->block_size = h4verif_block_len_override;
+    if (h4verif_block_num_override > 0)
+        access_rec->num_blocks = h4verif_block_num_override;
+#endif
 
     access_rec->special_info = NULL; /* reset */
 
